@@ -448,6 +448,11 @@ def seeded_variants(prop):
         if _os.path.exists(pf):
             out.append({"id": "seeded:" + _os.path.basename(d), "prop": prop, "edits": [("@patch", pf, False)],
                         "expect": ["any"], "what": "independent sub-agent change (see meta.json)"})
+    # behaviour-preserving refactorings written by independent sub-agents: every one must leave every check silent
+    for pf in sorted(_glob.glob(_os.path.join(_SEEDED, "_refactors*", "*", "*.diff"))):
+        rel = _os.path.relpath(pf, _SEEDED)
+        out.append({"id": "refactor:" + rel[:-5], "prop": prop, "edits": [("@patch", pf, False)], "expect": "silent",
+                    "what": "behaviour-preserving refactoring by an independent sub-agent (see the .md next to it)"})
     mpath = _os.path.join(_SEEDED, "_fix_reversals", "MATRIX.json")
     if _os.path.exists(mpath):
         import json as _json
